@@ -24,7 +24,10 @@ type jobHist struct {
 	jb2 *job // the job object of the second trigger (Mixed)
 	// failedFull: a run of the fullsync trigger failed midway at some point of this history
 	failedFull bool
-	chk        *server.VCheck
+	// srcRecreated: the source dataset was dropped and created again and no run has completed since: the persisted
+	// token still belongs to the former incarnation's change log (a fullsync job does not read by it)
+	srcRecreated bool
+	chk          *server.VCheck
 	viol       []engine.Violation
 	last       string
 	// a source write that lands during a run (op runw)
@@ -129,6 +132,9 @@ func (jh *jobHist) memberTokens() (map[string]uint64, string) {
 
 // tokenSafety: the persisted token never points past data that was not written to the sink.
 func (jh *jobHist) tokenSafety(when string) {
+	if jh.srcRecreated {
+		return
+	}
 	toks, raw := jh.memberTokens()
 	if toks == nil {
 		jh.fail("token-undecodable", fmt.Sprintf("%s: persisted continuation token %q cannot be decoded", when, raw))
@@ -477,6 +483,9 @@ func vReplayJob(task engine.SeqTask) (res engine.SeqResult) {
 			tokBefore := jw.token(jh.id)
 			ran = true
 			r, panicked := jh.run(mode, op.N)
+			if r != nil && r.LastError == "" && panicked == "" {
+				jh.srcRecreated = false
+			}
 			if p.Spec.JobType == "fullsync" {
 				if r != nil && r.LastError != "" {
 					jh.failedFull = true
@@ -545,6 +554,7 @@ func vReplayJob(task engine.SeqTask) (res engine.SeqResult) {
 				return
 			}
 			h.M.Delete("A")
+			jh.srcRecreated = true
 			if err := h.EnsureDatasets("A"); err != nil {
 				res.HarnessEr = "recreate: " + err.Error()
 				return
@@ -562,7 +572,7 @@ func vReplayJob(task engine.SeqTask) (res engine.SeqResult) {
 				if r2, p2 := jh.run("", 0); p2 != "" || r2.LastError != "" {
 					jh.fail("run-after-write-fails", fmt.Sprintf("the clean run after the source was re-created fails: %s %s", p2, r2.LastError))
 				} else {
-					jh.failedFull = false
+					jh.failedFull, jh.srcRecreated = false, false
 					jh.converged("after the source was dropped and created again and one clean run")
 				}
 			}
